@@ -333,6 +333,9 @@ def _dump_single_output(
     output: Any,
     store: dict[str, StoreType],
 ) -> tuple[Any, ...]:
+    if isinstance(output, _StoredOutputs):
+        # Loaded from the store: already picked per output name (and already stored)
+        return output.outputs
     if isinstance(func.output_name, tuple):
         new_output = []  # output in same order as func.output_name
         for output_name in func.output_name:
@@ -734,6 +737,12 @@ def _maybe_execute_single(
     return _execute_single(*args)
 
 
+class _StoredOutputs(NamedTuple):
+    """The outputs of a function (one per output name) that were loaded instead of computed."""
+
+    outputs: tuple[Any, ...]
+
+
 class _StoredValue(NamedTuple):
     value: Any
     exists: bool
@@ -783,7 +792,8 @@ def _execute_single(
     # Load the output if it exists
     output, exists = _load_from_store(func.output_name, store, return_output=True)
     if exists:
-        return output
+        # One value per output name; do not let `output_picker` pick from it again
+        return _StoredOutputs(tuple(output) if isinstance(func.output_name, tuple) else (output,))
 
     # Otherwise, run the function
     _load_arrays(kwargs)
